@@ -88,6 +88,15 @@ func NewServer(be Backend) *Server {
 // Serve accepts incoming connections on the Listener l.
 func (s *Server) Serve(l net.Listener) error {
 	s.locker.Lock()
+	select {
+	case <-s.done:
+		// Close or Shutdown has been called already: nobody would close
+		// this listener or make this call return any more.
+		s.locker.Unlock()
+		l.Close()
+		return ErrServerClosed
+	default:
+	}
 	s.listeners = append(s.listeners, l)
 	s.locker.Unlock()
 
